@@ -597,7 +597,9 @@ func TestC08CasterFree(t *testing.T) {
 
 func TestC08CasterMisuse(t *testing.T) {
 	st := vkit.For("c08_caster_misuse")
-	special := []int{0, 1, -1, 2, -2, math.MaxInt32, -math.MaxInt32, math.MaxInt32 + 1, -math.MaxInt32 - 1, math.MaxInt32 - 1, math.MinInt64, math.MaxInt64, math.MinInt32}
+	special := []int{0, 1, -1, 2, -2, math.MaxInt32, -math.MaxInt32, math.MaxInt32 + 1, -math.MaxInt32 - 1, math.MaxInt32 - 1, math.MinInt64, math.MaxInt64, math.MinInt32,
+		// deltas whose low 32 bits look harmless
+		1 << 32, 1<<32 + 1, 1<<32 + 3, -(1 << 32), -(1 << 32) - 1, 1 << 33, 3<<32 + 2, math.MaxUint32, math.MaxUint32 + 2, -math.MaxUint32, 1<<52 + 1, -(1 << 40) - 2}
 
 	// Deterministic probes of the two listed known findings: the KNOWN-FINDING line is printed only
 	// while the listed shape really still fails.
@@ -679,9 +681,16 @@ func TestC08CasterMisuse(t *testing.T) {
 					continue
 				}
 				var d int
-				if rapid.Bool().Draw(t, "special") {
+				switch rapid.IntRange(0, 4).Draw(t, "deltaKind") {
+				case 0, 1:
 					d = rapid.SampledFrom(special).Draw(t, "delta")
-				} else {
+				case 2:
+					// anywhere in the int range, with a small low half now and then
+					d = rapid.Int().Draw(t, "delta")
+					if rapid.Bool().Draw(t, "smallLow") {
+						d = (d &^ 0xffffffff) | rapid.IntRange(0, 5).Draw(t, "low")
+					}
+				default:
 					d = rapid.IntRange(-3, 3).Draw(t, "delta")
 				}
 				res, pv := vkit.Call(func() any { return x.Add(d) })
